@@ -248,8 +248,11 @@ func NewLogger(filename string, rule RotateRule, compress bool) (*RotateLogger, 
 
 // Write 将 data 写入轮换日志。
 func (l *RotateLogger) Write(data []byte) (int, error) {
+	// io.Writer 不允许保留 data：记录要排队等写协程处理，
+	// 而调用方（如 fmt.Fprint）在 Write 返回后会立即复用其缓冲区，因此必须先拷贝。
+	record := append([]byte(nil), data...)
 	select {
-	case l.channel <- data:
+	case l.channel <- record:
 		return len(data), nil
 	case <-l.done:
 		log.Println(string(data))
